@@ -150,6 +150,8 @@ func subBuildSweep(id, tags string, rep *engine.Report) error {
 func init() {
 	SubModes["C18"] = func(args []string) *SubResult {
 		cases, steps, found := RegistrySweep()
+		c2, s2, f2 := ResourceSweep()
+		cases, steps, found = cases+c2, steps+s2, append(found, f2...)
 		r := &SubResult{Cases: cases, Steps: steps}
 		for _, v := range found {
 			r.Violations = append(r.Violations, *v)
